@@ -1,6 +1,8 @@
 """Generator of value specs (see values.py).  Two grammars:
 supported=True  -- the families property C05 lists as round-tripping exactly (plus, since the repair of D10 / C13-F1, object
-                   arrays of every rank -- 0, zero-length axes -- with cells of any supported kind);
+                   arrays of every rank -- 0, zero-length axes -- with cells of any supported kind; plus user objects on the generic
+                   object path whose class restores the state it hands out: __dict__ bags, __getstate__/__setstate__ pairs with dict /
+                   non-dict / falsy states, __reduce__ constructors -- `supported` (coq/io/CodecGuards.v) admits them);
 supported=False -- additionally the kinds C04 lists (frozenset, deque, Counter, namedtuple, range, bool/None/colliding dict
                    keys, object arrays of any rank, user classes with __getstate__/__slots__/__reduce__, bound methods, ...).
 All randomness comes from the random.Random passed in."""
@@ -14,9 +16,10 @@ FLOATS = ["0x1.8p+1", "0x0.0p+0", "-0x0.0p+0", "nan", "inf", "-inf", "0x1.999999
 
 
 class VGen:
-    def __init__(self, rnd, supported=True, share=0.08, nasty=0.0):
+    def __init__(self, rnd, supported=True, share=0.08, nasty=0.0, objects=False):
         self.r = rnd
         self.sup = supported
+        self.objects = objects and supported     # user objects in the supported stream (C05 asks for them; the other users keep their streams)
         self.n_identity = 0
         self.share = share
         # probability that a dict key / attribute name holds unprintable characters (line breaks, controls, lone surrogates:
@@ -236,12 +239,31 @@ class VGen:
                                   ["mydict", [[["str", "a"], self.value(depth - 1)]]],
                                   ["userobj", "Plain", [["attr", self.value(depth - 1)], ["key_types", ["int", 1]]][: self.r.randint(1, 2)]],
                                   ["mydefaultdict", "list", [[["str", "a"], self.value(depth - 1)]]]])
+        if self.objects and self.r.random() < 0.6:
+            return self.userobj(depth)
         self.ident()
         return ["list", [self.value(depth - 1) for _ in range(n)]]
 
+    def userobj(self, d):
+        """user objects on the generic object path whose class restores the state it hands out (they round-trip exactly: inside
+        the fragment of C05_roundtrip_partial since `supported` admits PObj): a __dict__ bag holding any supported values, a
+        __getstate__/__setstate__ pair, states that are not dicts (falsy ones included), a __reduce__ constructor"""
+        self.ident()
+        k = self.r.randint(0, 5)
+        if k <= 1:
+            return ["userobj", "Plain", [["attr", self.value(d - 1)], ["coef_", self.ndarray()], ["n_iter_", ["int", 7]]][: self.r.randint(0, 3)]]
+        if k == 2:
+            return ["userobj", "WithState", [["payload", self.value(d - 1)]]]
+        if k == 3:
+            return ["userobj", "FalsyState", [["flag", self.r.choice([["bool", False], ["int", 0], ["tuple", []], ["dict", []], ["str", ""], ["int", 3],
+                                                                       ["tuple", [["int", 1], ["str", "s"]]], ["list", [["float", "0x1.8p+1"]]]])]]]
+        if k == 4:
+            return ["userobj", "ReduceCtor", [["x", self.value(d - 1)], ["y", self.scalar()]][: self.r.randint(1, 2)]]
+        # one object reachable from two places, and from inside another object
+        return ["list", [["userobj", "Plain", [["a", self.scalar()]]], ["ref", self.r.randrange(1 << 16)], ["userobj", "WithState", [["payload", ["ref", self.r.randrange(1 << 16)]]]]]]
 
-def gen_value(rnd, supported=True, max_depth=3, nasty=0.0):
-    g = VGen(rnd, supported, nasty=nasty)
+def gen_value(rnd, supported=True, max_depth=3, nasty=0.0, objects=False):
+    g = VGen(rnd, supported, nasty=nasty, objects=objects)
     return g.value(rnd.randint(0, max_depth))
 
 
